@@ -18,7 +18,7 @@
      how it was constructed or of earlier solves.  The harness checks exactly that reading (HISTORY cells: solve twice,
      re-assign each public attribute between solves, two objects sharing arrays -- result identical to a fresh solver). *)
 From CV Require Import Base.Tac Base.LinAlg Base.Cmp Base.QcLin Model.C16_Solve
-     Proofs.C16_CG Proofs.C16_Prox Proofs.C16_Wrap Proofs.C16_Spec Proofs.C16_Grad Proofs.C16_Mono Proofs.C16_LMfull.
+     Proofs.C16_CG Proofs.C16_Prox Proofs.C16_Wrap Proofs.C16_Spec Proofs.C16_Grad Proofs.C16_Mono Proofs.C16_LMfull Proofs.C16_Dim Proofs.C16_Conj Proofs.C16_ConjSpec.
 From Coq Require Import Reals QArith Qcanon Ring.
 From Coquelicot Require Import Coquelicot.
 
@@ -522,7 +522,7 @@ Print Assumptions C16_lm_cells_differentiable.
    adjoint): for every k, as long as the curvature delta_j = |A p_j|^2 + shift |p_j|^2 is positive,
      <s_{j+1}, p_j> = 0   and   Phi(x_{j+1}) = Phi(x_j) - gamma_j^2 / delta_j,   Phi(x) = |b - A x|^2 + shift |x|^2 :
    the regularised least-squares objective decreases monotonically, strictly while the normal-equation residual is not 0.
-   _partial as a convergence statement: mutual conjugacy of all directions / termination in n steps is NOT proved. *)
+   (mutual conjugacy of all directions and termination in <= n steps: C16_cgls_conjugacy, C16_cgls_finite_termination below) *)
 Theorem C16_cgls_monotone_partial :
   forall (T : Type) (t0 t1 : T) (tadd tmul tsub : T -> T -> T) (topp : T -> T),
   ring_theory t0 t1 tadd tmul tsub topp eq ->
@@ -550,6 +550,91 @@ Theorem C16_matrix_form_is_adjoint_pair :
   adjoint_pair T t0 tadd tmul tsub n (length A) (matvec t0 tadd tmul A) (mattvec t0 tadd tmul n A).
 Proof. exact matrix_adjoint_pair. Qed.
 Print Assumptions C16_matrix_form_is_adjoint_pair.
+
+(* The classical conjugate-gradient invariants, for ALL iterations, in exact arithmetic (carrier embedded in R with a
+   compatible division; fwd/adj an adjoint pair; A^T A + shift I positive definite -- e.g. shift > 0): as long as the
+   normal-equation residuals s_0 .. s_{K-1} are non-zero,
+       <s_i, s_j> = 0     and     <p_i, (A^T A + shift I) p_j> = 0      for all i < j <= K.      (simultaneous induction) *)
+Theorem C16_cgls_conjugacy :
+  forall (T : Type) (t0 t1 : T) (tadd tmul tsub : T -> T -> T) (topp : T -> T),
+  ring_theory t0 t1 tadd tmul tsub topp eq ->
+  forall (tdiv : T -> T -> T) (tleb : T -> T -> bool) (teps : T) (phi : T -> R),
+  embedding T t0 t1 tadd tmul tsub topp tleb phi ->
+  (forall a b, phi b <> 0%R -> phi (tdiv a b) = (phi a / phi b)%R) ->
+  forall (n m : nat) (fwd adj : list T -> list T), adjoint_pair T t0 tadd tmul tsub n m fwd adj ->
+  forall (b : list T) (shift : T), length b = m -> forall (x0 : list T), length x0 = n ->
+  let it := fun j => cgls_iter T t0 tadd tmul tsub tdiv tleb teps fwd adj shift j (cgls_init T t0 tadd tmul tsub fwd adj b shift x0) in
+  let Hmul := fun p => vadd tadd (adj (fwd p)) (vscale tmul shift p) in
+  forall (K : nat), pos_def T t0 tadd tmul phi n fwd shift ->
+  (forall k, (k < K)%nat -> phi (normsq t0 tadd tmul (cg_s T (it k))) <> 0%R) ->
+  forall i j, (i < j)%nat -> (j <= K)%nat ->
+    phi (dot t0 tadd tmul (cg_s T (it i)) (cg_s T (it j))) = 0%R /\
+    phi (dot t0 tadd tmul (cg_p T (it i)) (Hmul (cg_p T (it j)))) = 0%R.
+Proof. exact cgls_conjugacy_pkg. Qed.
+Print Assumptions C16_cgls_conjugacy.
+
+(* Finite termination: some normal-equation residual s_k with k <= n is exactly zero (n+1 pairwise orthogonal non-zero vectors
+   do not fit into R^n: Bessel's inequality). *)
+Theorem C16_cgls_finite_termination :
+  forall (T : Type) (t0 t1 : T) (tadd tmul tsub : T -> T -> T) (topp : T -> T),
+  ring_theory t0 t1 tadd tmul tsub topp eq ->
+  forall (tdiv : T -> T -> T) (tleb : T -> T -> bool) (teps : T) (phi : T -> R),
+  embedding T t0 t1 tadd tmul tsub topp tleb phi ->
+  (forall a b, phi b <> 0%R -> phi (tdiv a b) = (phi a / phi b)%R) ->
+  forall (n m : nat) (fwd adj : list T -> list T), adjoint_pair T t0 tadd tmul tsub n m fwd adj ->
+  forall (b : list T) (shift : T), length b = m -> forall (x0 : list T), length x0 = n ->
+  pos_def T t0 tadd tmul phi n fwd shift ->
+  exists k, (k <= n)%nat /\
+    phi (normsq t0 tadd tmul (cg_s T (cgls_iter T t0 tadd tmul tsub tdiv tleb teps fwd adj shift k (cgls_init T t0 tadd tmul tsub fwd adj b shift x0)))) = 0%R.
+Proof. exact cgls_finite_termination_pkg. Qed.
+Print Assumptions C16_cgls_finite_termination.
+
+(* "Run to convergence" has a proved meaning in exact arithmetic: CGLS(A, b, x0, maxit >= max(n,1), tol = 0, shift).solve()
+   returns after at most max(n,1) iterations, by its residual clause, the exact solution of (A^T A + shift I) x = A^T b --
+   from any starting point x0.  (With tol > 0 it stops no later, C16_cgls_normal_equations says where.) *)
+Theorem C16_cgls_run_to_convergence :
+  forall (T : Type) (t0 t1 : T) (tadd tmul tsub : T -> T -> T) (topp : T -> T),
+  ring_theory t0 t1 tadd tmul tsub topp eq ->
+  forall (tdiv : T -> T -> T) (tleb : T -> T -> bool) (teps : T) (phi : T -> R),
+  embedding T t0 t1 tadd tmul tsub topp tleb phi ->
+  (forall a b, phi b <> 0%R -> phi (tdiv a b) = (phi a / phi b)%R) ->
+  forall (n m : nat) (fwd adj : list T -> list T), adjoint_pair T t0 tadd tmul tsub n m fwd adj ->
+  forall (b : list T) (shift : T), length b = m -> forall (x0 : list T), length x0 = n ->
+  forall (maxit : nat) (x : list T) (k : nat),
+  pos_def T t0 tadd tmul phi n fwd shift -> (Nat.max n 1 <= maxit)%nat ->
+  cgls_solve T t0 t1 tadd tmul tsub tdiv tleb teps fwd adj b shift x0 maxit t0 = (x, k) ->
+  (1 <= k <= Nat.max n 1)%nat /\
+  x = cg_x T (cgls_iter T t0 tadd tmul tsub tdiv tleb teps fwd adj shift k (cgls_init T t0 tadd tmul tsub fwd adj b shift x0)) /\
+  phi (normsq t0 tadd tmul (vsub tsub (adj (vsub tsub b (fwd x))) (vscale tmul shift x))) = 0%R.
+Proof. exact cgls_exact_convergence_pkg. Qed.
+Print Assumptions C16_cgls_run_to_convergence.
+
+(* the positive-definiteness hypothesis holds for every operator as soon as shift > 0 *)
+Theorem C16_pos_def_of_positive_shift :
+  forall (T : Type) (t0 t1 : T) (tadd tmul tsub : T -> T -> T) (topp : T -> T) (tleb : T -> T -> bool) (phi : T -> R),
+  embedding T t0 t1 tadd tmul tsub topp tleb phi ->
+  forall (n : nat) (fwd : list T -> list T) (shift : T), (0 < phi shift)%R -> pos_def T t0 tadd tmul phi n fwd shift.
+Proof. exact pos_def_of_positive_shift. Qed.
+Print Assumptions C16_pos_def_of_positive_shift.
+
+(* non-vacuity at Qc: the 3x2 matrix with shift 1/2 satisfies every hypothesis, and the model run with tol = 0 indeed returns after
+   2 = n iterations the exact solution *)
+Example C16_convergence_nonvacuous :
+  let A := qmat [[1; 0]; [0; 2]; [1; 1]]%Q in
+  let b := qvec [1; 2; 3]%Q in
+  let x0 := qvec [1; -1]%Q in
+  adjoint_pair Qc 0%Qc Qcplus Qcmult Qcminus 2 3 (qmatvec A) (qmattvec 2 A) /\
+  pos_def Qc 0%Qc Qcplus Qcmult phiQ 2 (qmatvec A) (qc (1 # 2)) /\
+  exists x, q_cgls_solve (qmatvec A) (qmattvec 2 A) b (qc (1 # 2)) x0 7 0%Qc = (x, 2%nat) /\
+            qnormsq (ne_residual 2 A b (qc (1 # 2)) x) = 0%Qc.
+Proof.
+  cbn zeta. split; [ | split].
+  - apply (matrix_adjoint_pair Qc 0%Qc 1%Qc Qcplus Qcmult Qcminus Qcopp Qcrt 2 (qmat [[1; 0]; [0; 2]; [1; 1]]%Q)). repeat constructor.
+  - apply (pos_def_of_positive_shift Qc 0%Qc 1%Qc Qcplus Qcmult Qcminus Qcopp qc_leb phiQ embedding_Qc).
+    apply Rnot_le_lt. intros H. rewrite <- phiQ_0 in H. apply phiQ_leb in H. vm_compute in H. discriminate.
+  - eexists. split; vm_compute; reflexivity.
+Qed.
+Print Assumptions C16_convergence_nonvacuous.
 
 (* FINDING (CGLS.solve|normx-clause-returns-unconverged-point; PCGLS has the same line): the second disjunct of
    C16_cgls_normal_equations is not vacuous -- the absolute clause |x| tol >= 1 ends the loop before maxit at a point whose
